@@ -20,7 +20,8 @@ VARIABLES l, run, viol, hits, nruns, rs, stopped, firstRsPoll, polls, pend, rend
 vars == <<l, run, viol, hits, nruns, rs, stopped, firstRsPoll, polls, pend, rend, lag>>
 Rules == {"Q1", "Q2", "R1", "R2", "R3", "LAG", "PANIC"}
 Max(a, b) == IF a > b THEN a ELSE b
-Add(v, x) == IF Len(v) >= 24 THEN v ELSE Append(v, x)
+\* the cap is per rule (x[2]): a flood of one rule (say Q2, which another check owns) must not crowd out the others
+Add(v, x) == IF Len(SelectSeq(v, LAMBDA e : e[2] = x[2])) >= 6 THEN v ELSE Append(v, x)
 RECURSIVE AddAll(_, _)
 AddAll(v, xs) == IF xs = <<>> THEN v ELSE AddAll(Add(v, Head(xs)), Tail(xs))
 Flush == viol = <<>> \/ PrintT(<<"RUNVIOL", ToJson([run |-> run, viol |-> viol])>>)
